@@ -333,7 +333,7 @@ macro_rules! define_gfgen { ($typename:ident, $fieldparams:ident, $submod:ident,
 
         pub fn set_square(&mut self) {
             // Use generic multiplication for squarings if requested so.
-            if !($squarespec) {
+            if !($squarespec) || Self::N < 2 {
                 let r = *self;
                 self.set_mul(&r);
                 return;
